@@ -25,7 +25,7 @@ EXPLANATION = ("MIXED. Deductive part: the real signature functions are executed
                "function and the HMAC replaced by a recorder; the key and base string handed to the HMAC must equal RFC 5849's, written in the contract from the RFC. Bounded part: a seeded "
                "generator of parameter sets, secrets, methods and URLs against an independent reference implementation using hmac / hashlib directly.")
 TRUSTED = ["hmac, hashlib.sha1, binascii.b2a_base64 (same functions on both sides)", "urllib.parse.quote(safe='~') is RFC 3986 percent-encoding over UTF-8 (sampled by the stand-in, uninterpreted in the proof)",
-           "urllib.parse.urlparse splits scheme / authority / path (stubbed in the proof, real in the stand-in)"]
+           "urllib.parse.urlsplit splits scheme / authority / path (stubbed in the proof, real in the stand-in)"]
 ASSUMPTIONS = ["parameter values are str or int (str() of them is their text); names are str", "the URL carries no query, fragment or userinfo (request parameters are given in `parameters`)",
                "host names are ASCII (lower-casing distributes over host:port)", "number of parameters <= 2 in the symbolic unit (sorting a symbolic-length list is not encoded)"]
 M = "tornado.auth"
@@ -47,6 +47,104 @@ def reference_signature(consumer_secret, token_secret, method, scheme, host, por
     base = "&".join([enc(method.upper()), enc(base_uri), enc(norm)])
     key = enc(consumer_secret) + "&" + enc(token_secret or "")
     return base64.b64encode(_hmac.new(key.encode("ascii"), base.encode("ascii"), hashlib.sha1).digest()), base, key
+
+
+def _ENC(c, x):
+    """the percent-encoding: one uninterpreted function on symbolic text, the reference `enc` on concrete text (replay / cross-check)"""
+    import z3
+    from pyvc.proxies import SStr
+    if isinstance(x, SStr):
+        c.use_model("percent-encoding (urllib.parse.quote(safe='~') = _oauth_escape = RFC 5849 3.6) as one uninterpreted function String -> String")
+        return SStr(z3.Function("rfc5849_enc", z3.StringSort(), z3.StringSort())(x.t), False)
+    if isinstance(x, bytes):
+        x = x.decode("utf-8")
+    return enc(x)
+
+
+class _Recorder:
+    def __init__(self):
+        self.calls = []
+
+    def new(self, key, msg=None, digestmod=None):
+        self.calls.append((key, msg, digestmod))
+        return self
+
+    def digest(self):
+        return b"\x00" * 20
+
+
+@unit("C48", "_oauth_signature.base+key", [(M, "_oauth_signature"), (M, "_oauth10a_signature"), (M, "_oauth_normalize_netloc")], z3_ms=4000, cvc5_ms=20000)
+def u_sig(c):
+    import hashlib as _hashlib
+    import types
+    import urllib.parse
+    import z3
+    import tornado.auth as A
+    import tornado.escape as E
+    from pyvc.proxies import SStr
+    c.fresh_feasibility = True
+    c.hard_timeouts = True
+    which = c.choose("function", ["_oauth_signature", "_oauth10a_signature"])
+    n = c.choose("parameters", [0, 1, 2])
+    has_token = c.choose("token", [True, False])
+    scheme = c.choose("scheme", ["http", "https", "HTTP"])
+    port = c.choose("port", ["", ":80", ":443", ":8080"])
+    host, path, method = c.str("host"), c.str("path"), c.str("method")
+    cs, ts = c.str("consumer_secret"), c.str("token_secret")
+    names = [c.str("name%d" % i) for i in range(n)]
+    values = [c.str("value%d" % i) for i in range(n)]
+    if isinstance(host, SStr):
+        # A-ASCII-HOST: a host has no ':' and lower-casing it leaves an appended ':port' alone
+        lower = z3.Function("py_lower", z3.StringSort(), z3.StringSort())
+        c.assume_z3(z3.Not(z3.Contains(host.t, z3.StringVal(":"))))
+        c.assume_z3(z3.Not(z3.Contains(lower(host.t), z3.StringVal(":"))))
+        c.assume_z3(lower(z3.Concat(host.t, z3.StringVal(port))) == z3.Concat(lower(host.t), z3.StringVal(port)) if port else z3.BoolVal(True))
+        if n == 2:
+            c.assume_z3(names[0].t != names[1].t)        # keys of one dict
+    else:
+        host = host.replace(":", "")
+        if n == 2 and names[0] == names[1]:
+            names[1] += "x"
+    netloc = host + port
+    rec = _Recorder()
+    # the functions only call parameters.items(): a list of (name, value) pairs with distinct names stands for the dict (a symbolic text has no hash)
+    params = types.SimpleNamespace(items=lambda: list(zip(names, values))) if isinstance(host, SStr) else dict(zip(names, values))
+    utf8 = lambda v: SStr(v.t, True) if isinstance(v, SStr) else E.__dict__["utf8"](v)      # noqa: E731   (UTF-8 of the all-ASCII key / base string is the identity)
+    real_utf8 = E.utf8
+    quote = lambda v, safe="/": _ENC(c, v)      # noqa: E731
+    with c.patched((A, "_oauth_escape", lambda v: _ENC(c, v)), (urllib.parse, "quote", quote), (urllib.parse, "urlsplit", lambda u: (scheme, netloc, path, "", "")),
+                   (A, "hmac", types.SimpleNamespace(new=rec.new)), (E, "utf8", lambda v: SStr(v.t, True) if isinstance(v, SStr) else real_utf8(v))):
+        out = c.call(c.fn(M, which), {"key": "ck", "secret": cs}, method, "<url>", params, {"key": "tk", "secret": ts} if has_token else None)
+    c.only_raises(out, ())
+    c.cover("%s/%d" % (which, n))
+    if out.raised or len(rec.calls) != 1:
+        c.oblige("post/exactly-one-HMAC-is-computed", False)
+        return
+    key, msg, digestmod = rec.calls[0]
+    c.oblige("post/the-digest-is-SHA1", digestmod is _hashlib.sha1)
+    # ---- RFC 5849, written from the RFC
+    sch = scheme.lower()
+    default = (sch == "http" and port == ":80") or (sch == "https" and port == ":443")
+    base_uri = sch + "://" + host.lower() + ("" if default else port) + path
+    pairs = [(_ENC(c, k), _ENC(c, v)) for k, v in zip(names, values)]
+    if n == 2:
+        p0, p1 = pairs
+        first_is_0 = (p0[0] < p1[0]) | ((p0[0] == p1[0]) & (p0[1] <= p1[1])) if isinstance(p0[0], SStr) else (p0 <= p1)
+        a, b = p0[0] + "=" + p0[1], p1[0] + "=" + p1[1]
+        if isinstance(p0[0], SStr):
+            norm = SStr(z3.If(first_is_0.t, (a + "&" + b).t, (b + "&" + a).t), False)
+        else:
+            norm = a + "&" + b if first_is_0 else b + "&" + a
+    elif n == 1:
+        norm = pairs[0][0] + "=" + pairs[0][1]
+    else:
+        norm = ""
+    enc_norm = _ENC(c, norm) if n else ""
+    base = _ENC(c, method.upper()) + "&" + _ENC(c, base_uri) + "&" + enc_norm
+    want_key = _ENC(c, cs) + "&" + (_ENC(c, ts) if has_token else "")
+    as_text = lambda v: SStr(v.t, False) if isinstance(v, SStr) else (v.decode("utf-8") if isinstance(v, bytes) else v)      # noqa: E731
+    c.oblige("post/base-string-is-METHOD&enc(uri)&enc(sorted-encoded-parameters) (RFC 5849 3.4.1)", as_text(msg) == base)
+    c.oblige("post/key-is-enc(consumer-secret)&enc(token-secret) (RFC 5849 3.4.2)", as_text(key) == want_key)
 
 
 # ---------------------------------------------------------------------------------- bounded stand-in
